@@ -7,6 +7,7 @@ import AaVerif.Generated.AaTables
 import AaVerif.Aa.Wire
 import AaVerif.Logs
 import AaVerif.Layout
+import AaVerif.Prep
 import AaVerif.Aa.Resolve
 import AaVerif.Generated.LogRx
 open Proto
@@ -200,12 +201,31 @@ def suiteResolve (f : List String) : String :=
     | .error _ => "err"
   | _ => "err\tbad-op"
 
+def decListing (s : String) : Prep.Listing :=
+  (unescList s).map (fun kv =>
+    let str := String.ofList kv
+    match str.splitOn "=" with
+    | [p, v] => (Prep.splitPath p, v)
+    | p :: rest => (Prep.splitPath p, String.intercalate "=" rest)
+    | [] => ([], ""))
+
+def strs (s : String) : List String := (unescList s).map String.ofList
+
+def suitePrepare (f : List String) : String :=
+  match f with
+  | [src, ign, ub, cu, r41, ow, full, fl, ed] =>
+    let i : Prep.Input := ⟨decListing src, strs ign, decListing ub, cu == "1", strs r41, strs ow, decListing full, strs fl, strs ed⟩
+    let out := (Prep.spec i).toArray.qsort (fun a b => a.1 < b.1) |>.toList
+    "ok\t" ++ escList (out.map (fun p => (String.intercalate "/" p.1 ++ "=" ++ p.2).toList)) ++ "\t" ++ b2s (Prep.uniqueBase i.src)
+  | _ => "err\tbad-op"
+
 def main (args : List String) : IO Unit := do
   match args with
   | ["builder"] => serve suiteBuilder
   | ["setflags"] => serve suiteSetflags
   | ["filter"] => serve suiteFilter
   | ["layout"] => serve suiteLayout
+  | ["prepare"] => serve suitePrepare
   | ["resolve"] => serve suiteResolve
   | ["uniq"] => serve suiteUniq
   | ["getlogs"] => serve suiteGetLogs
